@@ -7,19 +7,21 @@ RULE = ('exhaustive: all ordered pairs of polynomials of degree <= 2 with coeffi
         'random pairs (h f1, h g1) with deg h in 0..6 and arbitrary contents and signs; coprime pairs; divisibility chains f | g; f = +-g; constants; zero; '
         'degree gaps. Non-trivial = both non-constant. The last tag gives the count of model runs whose exactness flag was true/false.')
 PROVED = ['[P] gcd_zero_l: gcd(0, g) = g verbatim',
-          '[P] gcd_zero_r: gcd(f, 0) = |cont f| * pp f (= f if lc f > 0, = -f otherwise) for canonical f',
+          '[P] gcd_zero_r: gcd(f, 0) = f if lc f > 0, -f otherwise (= |cont f| * pp f), for canonical f <> 0',
           '[P] gcd_no_outoffuel: the supplied fuel suffices for all inputs',
-          '[C] gcd_flag_no_panic_partial: flag true => the run did not panic']
-NOT_PROVED = ['d | f and d | g in Z[x], coprime cofactors and contents (gcd_partial of DESIGN: needs Gauss lemma on the model + PRS invariant): checked by the oracle on every case',
-              'exactness of the a*b^delta divisions (sub-resultant structure theorem): flag observed true on every explored input',
-              'deg d = deg f + deg g - rank Sylvester(f, g): oracle only',
-              'positive leading coefficient of d for non-zero inputs: oracle only']
+          '[C] gcd_flag_no_panic_partial: canonical inputs, flag true => a polynomial is returned',
+          '[C] gcd_partial: canonical inputs, f <> 0, flag true, result d => d is associated over Q to gcdp(f, g) (MathComp, %=), d canonical, lc d > 0']
+NOT_PROVED = ['exactness of the a*b^delta divisions (sub-resultant structure theorem): flag observed true on every explored input',
+              'integrality: d | f and d | g in Z[x], coprime cofactor contents (Gauss lemma on top of gcd_partial): checked by the oracle (exact division over Q with integer quotient, rational Euclid on the cofactors, contents) on every case',
+              'deg d = deg f + deg g - rank Sylvester(f, g): oracle only']
+
+TIMEOUT = 3600          # per service process; the extracted model computes with Coq's binary integers (slow on 64-bit coefficients)
 
 CLAIM = dict(
-    technique='Coq proofs about the Gallina model of resultant_smart_gcd (edge cases, termination, flag => no panic) + extracted-model-vs-implementation correspondence + independent divisibility/coprimality/Sylvester-rank oracle on every case',
-    text='For all inputs: gcd(0,g), gcd(f,0), fuel sufficiency, and no panic whenever the exactness flag is true. '
-         'That the result is a greatest common divisor is checked on every generated case by exact division over Q, an independent rational Euclid, contents, sign, and the Sylvester rank; it is not proved.',
-    note='Exactness flag observed true on every explored input; the gcd property itself is oracle-checked, not proved.',
+    technique='Coq proofs about the Gallina model of resultant_smart_gcd (edge cases, termination; under the exactness flag: no panic, result associated over Q to MathComp gcdp of the inputs, positive leading coefficient) + extracted-model-vs-implementation correspondence + independent divisibility/coprimality/Sylvester-rank oracle on every case',
+    text='For all inputs: gcd(0,g), gcd(f,0), fuel sufficiency; whenever the exactness flag is true: no panic, d %= gcdp(f,g) over Q and lc d > 0 ([C]). '
+         'Divisibility in Z[x] with coprime cofactor contents and the Sylvester-rank degree formula are checked on every generated case by independent oracles; they are not proved.',
+    note='Exactness flag observed true on every explored input; integrality of the cofactors (Gauss lemma) and the rank formula are oracle-checked, not proved.',
     ref='DESIGN.md section 4, C10')
 
 def o_gcd(f, g):
